@@ -1,14 +1,97 @@
-// ===== shims/fs.rs — trusted base: the file system and the file-ext / mime dependencies =====
+// ===== shims/fs.rs — trusted base: the file system, std::fs, std::env::current_dir and the file-ext / mime dependencies =====
 // The file system is a ghost, immutable map (assumed not to change during one request).
 // Every function that touches a path REQUIRES fs_allowed(path): the containment obligation of C01.
+// Every function that would MODIFY the file system requires false: the effect obligation of C13.
 pub uninterp spec fn file_content(path: Seq<char>) -> Seq<u8>;
-pub uninterp spec fn fs_allowed(path: Seq<char>) -> bool;
 pub uninterp spec fn mime_of(path: Seq<char>) -> Seq<char>;
+pub uninterp spec fn cwd() -> Seq<char>;                       // absolute path of the served directory
+pub uninterp spec fn fs_is_file(path: Seq<char>) -> bool;
+pub uninterp spec fn fs_is_dir(path: Seq<char>) -> bool;
+pub uninterp spec fn fs_openable(path: Seq<char>) -> bool;      // File::open succeeds (exists and is readable)
+pub uninterp spec fn via_symlink(path: Seq<char>) -> bool;      // the resolution of a symbolic link that itself lies under the root
+
+pub open spec fn is_sep(c: char) -> bool { c == '/' || c == '\\' }
+
+// a ".." path segment starting at index i
+pub open spec fn dotdot_at(s: Seq<char>, i: int) -> bool {
+    0 <= i && i + 2 <= s.len() && s[i] == '.' && s[i + 1] == '.'
+    && (i == 0 || is_sep(s[i - 1])) && (i + 2 == s.len() || is_sep(s[i + 2]))
+}
+pub open spec fn has_dotdot_seg(s: Seq<char>) -> bool { exists|i: int| dotdot_at(s, i) }
+
+// a relative path that cannot leave the directory it is appended to
+pub open spec fn rel_inside(rel: Seq<char>) -> bool { rel.len() > 0 && rel[0] == '/' && !has_dotdot_seg(rel) }
+
+pub open spec fn under_root(path: Seq<char>) -> bool { exists|rel: Seq<char>| #![auto] path == cwd() + rel && rel_inside(rel) }
+
+pub open spec fn fs_allowed(path: Seq<char>) -> bool { under_root(path) || via_symlink(path) }
 
 // bytes [start, min(end + 1, len)) of a file; empty when start is beyond the end (file-ext 12.1.0: seek + take(end-start+1))
 pub open spec fn file_slice(c: Seq<u8>, start: int, end: int) -> Seq<u8> {
     if start >= c.len() { Seq::empty() } else if end + 1 >= c.len() { c.subrange(start, c.len() as int) } else { c.subrange(start, end + 1) }
 }
+
+#[verifier::external_type_specification]
+#[verifier::external_body]
+pub struct ExMetadata(std::fs::Metadata);
+#[verifier::external_type_specification]
+#[verifier::external_body]
+pub struct ExFile(std::fs::File);
+#[verifier::external_type_specification]
+#[verifier::external_body]
+pub struct ExPathBuf(std::path::PathBuf);
+#[verifier::external_type_specification]
+#[verifier::external_body]
+pub struct ExPath(std::path::Path);
+
+pub uninterp spec fn md_is_dir(m: std::fs::Metadata) -> bool;
+pub uninterp spec fn md_is_file(m: std::fs::Metadata) -> bool;
+pub uninterp spec fn md_len(m: std::fs::Metadata) -> u64;
+pub uninterp spec fn md_path(m: std::fs::Metadata) -> Seq<char>;
+
+pub assume_specification[std::fs::Metadata::is_dir](m: &std::fs::Metadata) -> (r: bool)
+    ensures r == md_is_dir(*m);
+pub assume_specification[std::fs::Metadata::is_file](m: &std::fs::Metadata) -> (r: bool)
+    ensures r == md_is_file(*m);
+// file sizes are signed 64-bit offsets on the supported targets (off_t)
+pub assume_specification[std::fs::Metadata::len](m: &std::fs::Metadata) -> (r: u64)
+    ensures r == md_len(*m), r <= 0x7fff_ffff_ffff_ffff;
+
+#[verifier::external_body]
+pub fn rws_metadata<P: RwsPath + ?Sized>(path: &P) -> (r: Result<std::fs::Metadata, std::io::Error>)
+    requires fs_allowed(path.pview()),
+    ensures
+        r.is_ok() ==> md_path(r.unwrap()) == path.pview() && md_is_dir(r.unwrap()) == fs_is_dir(path.pview())
+            && md_is_file(r.unwrap()) == fs_is_file(path.pview()) && !(md_is_dir(r.unwrap()) && md_is_file(r.unwrap())),
+        r.is_ok() <==> (fs_is_dir(path.pview()) || fs_is_file(path.pview())),
+{ unimplemented!() }
+
+#[verifier::external_body]
+pub fn rws_file_open<P: RwsPath + ?Sized>(path: &P) -> (r: Result<std::fs::File, std::io::Error>)
+    requires fs_allowed(path.pview()),
+    ensures
+        r.is_ok() == fs_openable(path.pview()),
+        r.is_ok() ==> (fs_is_dir(path.pview()) || fs_is_file(path.pview())),
+{ unimplemented!() }
+
+// things that can be passed where the code passes &String / &&String / &str as a path
+pub trait RwsPath {
+    spec fn pview(&self) -> Seq<char>;
+}
+impl RwsPath for String { open spec fn pview(&self) -> Seq<char> { self@ } }
+impl RwsPath for str { open spec fn pview(&self) -> Seq<char> { self@ } }
+impl<'a> RwsPath for &'a String { open spec fn pview(&self) -> Seq<char> { (**self)@ } }
+impl<'a> RwsPath for &'a str { open spec fn pview(&self) -> Seq<char> { (**self)@ } }
+
+// env::current_dir().unwrap(); dir.as_path().to_str().unwrap()
+#[verifier::external_body]
+pub fn rws_env_current_dir() -> (r: Result<std::path::PathBuf, std::io::Error>)
+    ensures r.is_ok(),      // ASSUMED: the working directory exists and is accessible
+{ std::env::current_dir() }
+pub assume_specification[std::path::PathBuf::as_path](p: &std::path::PathBuf) -> (r: &std::path::Path);
+// ASSUMED: the working directory is valid UTF-8
+pub assume_specification<'a>[std::path::Path::to_str](p: &'a std::path::Path) -> (r: Option<&'a str>)
+    ensures r.is_some(), r.unwrap()@ == cwd();
 
 pub struct FileExt;
 impl FileExt {
@@ -18,12 +101,98 @@ impl FileExt {
         requires fs_allowed(filepath@), start <= end, end - start < u64::MAX,
         ensures r.is_ok() ==> r.unwrap()@ == file_slice(file_content(filepath@), start as int, end as int),
     { unimplemented!() }
+
+    #[verifier::external_body]
+    pub fn read_file(filepath: &str) -> (r: Result<Vec<u8>, String>)
+        requires fs_allowed(filepath@),
+        ensures r.is_ok() ==> r.unwrap()@ == file_content(filepath@),
+    { unimplemented!() }
+
+    #[verifier::external_body]
+    pub fn does_file_exist(path: &str) -> (r: bool)
+        requires fs_allowed(path@),
+    { unimplemented!() }
+
+    // this target: "/"
+    #[verifier::external_body]
+    pub fn get_path_separator() -> (r: String)
+        ensures r@ == seq!['/'],
+    { unimplemented!() }
+
+    // working directory ++ path
+    #[verifier::external_body]
+    pub fn get_static_filepath(path: &str) -> (r: Result<String, String>)
+        ensures r.is_ok() ==> r.unwrap()@ == cwd() + path@,
+    { unimplemented!() }
+
+    #[verifier::external_body]
+    pub fn file_modified_utc(filepath: &str) -> (r: Result<u128, String>)
+        requires fs_allowed(filepath@),
+    { unimplemented!() }
+
+    #[verifier::external_body]
+    pub fn is_symlink(path: &str) -> (r: Result<bool, String>)
+        requires fs_allowed(path@),
+    { unimplemented!() }
+
+    #[verifier::external_body]
+    pub fn symlink_points_to(path: &str) -> (r: Result<String, String>)
+        requires fs_allowed(path@),
+    { unimplemented!() }
+
+    // the target of a link: allowed by the symlink exemption of the property (the owner of the served directory placed the link)
+    #[verifier::external_body]
+    pub fn resolve_symlink_path(symlink_directory: &str, symlink_points_to: &str) -> (r: Result<String, String>)
+        ensures r.is_ok() ==> via_symlink(r.unwrap()@),
+    { unimplemented!() }
+
+    // ---- C13: nothing reachable from a request may call these ----
+    #[verifier::external_body]
+    pub fn write_file(path: &str, content: &[u8]) -> (r: Result<(), String>)
+        requires false,
+    { unimplemented!() }
+    #[verifier::external_body]
+    pub fn create_file(path: &str) -> (r: Result<(), String>)
+        requires false,
+    { unimplemented!() }
+    #[verifier::external_body]
+    pub fn delete_file(path: &str) -> (r: Result<(), String>)
+        requires false,
+    { unimplemented!() }
+    #[verifier::external_body]
+    pub fn read_or_create_and_write(path: &str, content: &[u8]) -> (r: Result<Vec<u8>, String>)
+        requires false,
+    { unimplemented!() }
+    #[verifier::external_body]
+    pub fn create_directory(path: &str) -> (r: Result<(), String>)
+        requires false,
+    { unimplemented!() }
+    #[verifier::external_body]
+    pub fn delete_directory(path: &str) -> (r: Result<(), String>)
+        requires false,
+    { unimplemented!() }
+    #[verifier::external_body]
+    pub fn create_symlink(symlink_path: &str, symlink_name: &str, symlink_points_to: &str) -> (r: Result<(), String>)
+        requires false,
+    { unimplemented!() }
+    #[verifier::external_body]
+    pub fn copy_file(from: Vec<&str>, to: Vec<&str>) -> (r: Result<(), String>)
+        requires false,
+    { unimplemented!() }
 }
 
 pub struct MimeType;
 impl MimeType {
+    pub const TEXT_HTML: &'static str = "text/html";
+    pub const TEXT_PLAIN: &'static str = "text/plain";
     #[verifier::external_body]
     pub fn detect_mime_type(request_uri: &str) -> (r: String)
         ensures r@ == mime_of(request_uri@),
     { unimplemented!() }
+}
+
+// the url-build-parse dependency behind URL::parse: NOTHING is assumed about the components it returns
+pub struct UrlComponents {
+    pub scheme: String,
+    pub path: String,
 }
